@@ -64,6 +64,10 @@ func readerQuiescent(gid int64, d time.Duration) (string, bool) {
 		if g.State == "chan send" {
 			return "chan send", true
 		}
+		// a send that can also be aborted by a close / cancel is a select
+		if g.State == "select" && (g.Has(".queueError") || g.Has(".queuePackage")) {
+			return "chan send", true
+		}
 		if time.Now().After(deadline) {
 			return g.State, false
 		}
